@@ -197,7 +197,7 @@ def cases(rng, tier):
     quick = tier == "quick"
     # 1. exhaustive small domain
     el = 3 if quick else 4
-    texts = list(_texts(ALPHA[:2], el)) if quick else list(_texts(ALPHA, 3)) + list(_texts(ALPHA[:2], el))
+    texts = list(_texts(ALPHA[:2], el)) if quick else list(_texts(ALPHA, 2)) + list(_texts(ALPHA[:2], el))
     seen = set()
     for a in texts:
         for b in texts:
@@ -205,7 +205,7 @@ def cases(rng, tier):
             if key in seen:
                 continue
             seen.add(key)
-            for n in ((0, 1, 3) if quick else (0, 1, 2, 3)):
+            for n in (0, 1, 3):
                 yield _mk("diff", a, b, n)
             # no-final-newline variants
             ca, cb = _chop(a), _chop(b)
@@ -214,16 +214,16 @@ def cases(rng, tier):
                     if a2 is not None and b2 is not None:
                         yield _mk("diff", a2, b2, 1 if quick else rng.choice((0, 1, 3)))
     # 2. random longer pairs, both matchers
-    for i in range(500 if quick else 8000):
+    for i in range(500 if quick else 2500):
         a, b = _rand_pair(rng, 10 if quick else 14)
         n = rng.choice((0, 1, 2, 3, 3, 4))
         yield _mk("diff", a, b, n, "difflib" if i % 4 == 0 else "patience")
     # 3. the matcher's grouping (cheap: no bytes rendered)
-    for i in range(300 if quick else 4000):
+    for i in range(300 if quick else 1500):
         a, b = _rand_pair(rng, 24)
         yield _mk("groups", a, b, rng.choice((0, 1, 2, 3, 5, 8)), "difflib" if i % 2 else "patience")
     # 4. perturbed old texts
-    for i in range(60 if quick else 600):
+    for i in range(60 if quick else 160):
         a, b = _rand_pair(rng, 7)
         if a == b:
             continue
@@ -231,7 +231,7 @@ def cases(rng, tier):
         for a2 in _perturbations(a, rng, 8 if quick else 14):
             yield _mk("perturb", a, b, n, a2=a2)
     # 5. mutated patches
-    for i in range(12 if quick else 150):
+    for i in range(12 if quick else 50):
         a, b = _rand_pair(rng, 6)
         if a == b:
             b = b + [b"n\n"]
